@@ -91,6 +91,7 @@ class RI:
         self.vla_cap = vla_cap
         self.on_stmt = on_stmt
         self.preemptive = None
+        self.parsed_counts = None
         self.runs = 0
 
     # ---- decisions
@@ -291,6 +292,12 @@ class RI:
             try:
                 for s in b.stmts:
                     self.stmt(s)
+                if self.parsed_counts is not None:
+                    # the compiler dropped a suffix of this block as unreachable: then its last kept statement must
+                    # never complete normally (C16).  Getting here means the dropped code would have run.
+                    n = self.parsed_counts.get((b.span.start.line, b.span.start.col, b.span.end.line, b.span.end.col))
+                    if n is not None and len(b.stmts) < n:
+                        raise EndEx('dropped-code-reached')
             finally:
                 self.scopes = self.scopes[:-1]
         elif isinstance(b, A.IfBlock):
@@ -351,9 +358,9 @@ class RI:
     def state_key(self):
         """hashable snapshot of all variable state + number of events: exact repetition at a loop head
         with no new event means the loop runs forever (mirrors the VM's cycle detection)"""
-        items = [len(self.events), len(self.trace)]   # items[0] is dropped for the periodic-output test
-        # only sound if no decision was taken since the previous visit: use the trace length as part of the key
-        # but a growing trace never repeats; so divergence is only recognised for decision-free iterations.
+        items = [len(self.events)]   # items[0] is dropped for the periodic-output test
+        # Decisions taken since the previous visit do not matter: branch outcomes are functions of the state and of
+        # the (only growing) path condition, and choice points that a later halt flips lead to a re-run anyway.
         def h(v):
             if isc(v):
                 return v
@@ -630,11 +637,12 @@ def oracle_cases(compiled, inputs, W, checked=True, assumptions=(), **kw):
     """run RI; returns (cases, inconclusive, ri) with cases = [(conds, events, kind)]"""
     ri = RI(compiled.ast, compiled.env, W, ri_args(compiled, inputs, W), checked=checked, **kw)
     ri.preemptive = preemptive_functions(compiled.src)
+    ri.parsed_counts = parsed_block_counts(compiled.src)
     res = ri.run_all(assumptions)
     cases = []
     inconc = []
     for kind, conds, ev in res:
-        if kind in ('done', 'diverge', 'diverge-output', 'halt'):
+        if kind in ('done', 'diverge', 'diverge-output', 'halt', 'dropped-code-reached'):
             cases.append((conds, ev, kind))
         elif kind == 'undefined':
             cases.append((conds, ev, 'undefined'))
@@ -665,4 +673,30 @@ def preemptive_functions(src):
     for f in tree.func_decls:
         if has_preempt(f.body):
             out.add((f.name, tuple(p.type for p in f.params)))
+    return out
+
+
+def parsed_block_counts(src):
+    """span of every code block in the *parsed* (not yet typechecked) program -> number of statements,
+    so that the interpreter can tell which blocks the compiler truncated"""
+    import dataclasses
+    from hidc.parser import parse
+    from hidc.lexer import SourceCode
+    tree = parse(SourceCode.from_string(src))
+    out = {}
+
+    def walk(node):
+        if isinstance(node, A.CodeBlock):
+            k = (node.span.start.line, node.span.start.col, node.span.end.line, node.span.end.col)
+            out[k] = max(out.get(k, 0), len(node.stmts))
+        if isinstance(node, (list, tuple)):
+            for x in node:
+                walk(x)
+        elif dataclasses.is_dataclass(node) and not isinstance(node, type):
+            if type(node).__module__.startswith('hidc.lexer'):
+                return
+            for f in dataclasses.fields(node):
+                walk(getattr(node, f.name))
+    for f in tree.func_decls:
+        walk(f.body)
     return out
